@@ -1278,7 +1278,7 @@ class KVDef(EntAttribute):
             if all(x in '0123456789-' for x in default_str):
                 file.write(' : ' + default_str)
             else:
-                file.write(f' : "{default_str}"')
+                file.write(f' : "{_fgd_escape(custom_syntax, default_str)}"')
             if self.desc:
                 file.write(' : ')
         else:
@@ -1313,7 +1313,7 @@ class KVDef(EntAttribute):
                     try:
                         float(value)
                     except ValueError:
-                        value = f'"{value}"'
+                        value = f'"{_fgd_escape(custom_syntax, value)}"'
 
                     file.write(f'\t\t{value}: ')
                     # Newlines aren't functional here, just replace.
